@@ -223,8 +223,24 @@ def anSt (s : H) (node : NRef) (k : Int) : H :=
   let s4 : H := { s3 with _id_to_node := dictSet s3._id_to_node (optIntGet (s3.n node).id) node }
   { s4 with _full_name_to_node := dictSet s4._full_name_to_node (node_full_name s4 node) node }
 
+/-- the guard at the head of `add_node` (b653290): `node.id is not None and self._id_to_node.get(node.id) is node`
+— the object is already part of the graph -/
+def nodeIsPart (s : H) (node : NRef) : Bool :=
+  (s.n node).id.isSome && (dictGet s._id_to_node (optIntGet (s.n node).id) == some node)
+
+theorem nodeIsPart_iff (s : H) (node : NRef) :
+    nodeIsPart s node = true ↔ ∃ k, (s.n node).id = some k ∧ dictGet s._id_to_node k = some node := by
+  unfold nodeIsPart
+  cases h : (s.n node).id with
+  | none => simp
+  | some k => simp [optIntGet]
+
+theorem nodeIsPart_of_id_none (s : H) (node : NRef) (h : (s.n node).id = none) : nodeIsPart s node = false := by
+  unfold nodeIsPart; rw [h]; rfl
+
 theorem graph_add_node_eq (s : H) (node : NRef) (nid : Option Int) :
     graph_add_node s node nid =
+      if nodeIsPart s node = true then .error .valueError else
       if dictIn s._id_to_node (anKey s nid) = true then .error .valueError else .ok (anSt s node (anKey s nid)) := rfl
 
 theorem absS_anSt (s : H) (node : NRef) (k : Int) (af : Nat) :
